@@ -74,6 +74,87 @@ def theta_points(ref, seed):
     return pts
 
 
+def near_singular_points(ref):
+    """Joint vectors a few micro-radians away from a singular configuration, found with the reference Jacobian alone: along
+    each joint coordinate through a generic point the smallest singular value is scanned, its zeros are refined, and the
+    joint is set 3e-4 / 3e-5 rad beside each zero.  There the Jacobian still has full rank (sigma_min/sigma_max 1e-7..1e-4),
+    which is all 'mapping torques back returns the wrench' asks for.  -> [(name, theta, sigma_min/sigma_max)]"""
+    n = ref.n
+    if n < 6:
+        return []
+    S_space = poe.space_screws(ref.base, ref.S)
+    lo, hi = np.maximum(ref.lo, -6.2) + 1e-3, np.minimum(ref.hi, 6.2) - 1e-3
+    base = lo + (hi - lo) * np.array([0.45, 0.58, 0.4, 0.7, 0.35, 0.62, 0.5])[:n]
+
+    def sv(k, g):
+        q = base.copy()
+        q[k] = g
+        s = np.linalg.svd(poe.jac_space(S_space, q), compute_uv=False)
+        return float(s[min(5, len(s) - 1)]), float(s[0])
+    out = []
+    for k in range(n):
+        if not hi[k] - lo[k] > 1e-2:
+            continue
+        grid = np.linspace(lo[k], hi[k], 721)
+        vals = [sv(k, g)[0] for g in grid]
+        for i in range(1, len(grid) - 1):
+            if vals[i] < vals[i - 1] and vals[i] <= vals[i + 1] and vals[i] < 0.02:
+                a, b = grid[i - 1], grid[i + 1]
+                gr = (np.sqrt(5.0) - 1) / 2
+                c, d = b - gr * (b - a), a + gr * (b - a)
+                for _ in range(80):
+                    if sv(k, c)[0] < sv(k, d)[0]:
+                        b = d
+                    else:
+                        a = c
+                    c, d = b - gr * (b - a), a + gr * (b - a)
+                g0 = 0.5 * (a + b)
+                s6, s1 = sv(k, g0)
+                if s6 < 1e-7 * s1:
+                    for off in (3e-4, -3e-5):
+                        g = g0 + off
+                        if lo[k] < g < hi[k]:
+                            q = base.copy()
+                            q[k] = g
+                            s6b, s1b = sv(k, g)
+                            if s6b > 1e-9 * s1b:
+                                out.append(("near_singular:j%d%+.0e" % (k, off), q, s6b / s1b))
+        if len(out) >= 4:
+            break
+    return out[:4]
+
+
+def eval_near_singular(acc, arm, ref, case, th, ratio):
+    """Inverse statics beside a singularity: staticForcesInv(J^T F) == F to (rounding x condition number)."""
+    from basic_robotics.general import Wrench
+    S_space = poe.space_screws(ref.base, ref.S)
+    J_or = poe.jac_space(S_space, th)
+    jn = max(1.0, float(np.linalg.norm(J_or)))
+    T_or = ref.fk(th)
+    AdT = se3.adj(se3.tinv(T_or))
+    for Fv in WBASIS:
+        fn = max(1.0, float(np.linalg.norm(Fv)))
+        # rounding times the condition number - squared for solvers that go through the normal equations (still 'returns the
+        # wrench' at these ratios); a truncated pseudo-inverse loses a whole component, an error of order 1
+        tol = max(1e-11 / ratio, 1e-15 / ratio ** 2) * fn * jn + 1e-9
+        for name, tau, want in (("staticForcesInv", J_or.T @ Fv, Fv), ("staticForcesInvBody", (AdT @ J_or).T @ Fv, Fv)):
+            a = copy.deepcopy(arm)
+            fn_ = getattr(a, name, None)
+            if fn_ is None:
+                continue
+            try:
+                back = fn_(tau.copy(), th.copy())
+            except Exception as e:
+                acc.violation("raised", dict(case, call=name), repr(e))
+                continue
+            bv = np.asarray(back.data if hasattr(back, "data") else back, float).reshape(-1)
+            acc.evals += 1
+            err = rel(bv, want)
+            acc.resid("statics_inverse_near_singular", err)
+            if not (err <= tol):
+                acc.violation("statics_inverse_near_singular", dict(case, call=name), err, tol, flags={"sigma_ratio": ratio})
+
+
 def rel(a, b):
     return float(np.abs(np.asarray(a) - np.asarray(b)).max())
 
@@ -291,6 +372,16 @@ def work(p):
                 import traceback
                 acc.violation("raised", case, repr(e) + traceback.format_exc()[-400:])
             acc.case((an, hi, tn), nontrivial=tn != "zero" or hi > 0)
+        if hi == 0:
+            try:
+                for tn, th, ratio in near_singular_points(ref):
+                    case = {"arm": an, "history": list(H[hi]), "theta": tn, "theta_values": [float(x) for x in th]}
+                    eval_near_singular(acc, arm, ref, case, th, ratio)
+                    acc.case((an, hi, tn), nontrivial=True)
+                    acc.outcome("near_singular_points", 1)
+            except Exception as e:
+                import traceback
+                acc.violation("raised", {"arm": an, "history": list(H[hi]), "theta": "near_singular"}, repr(e) + traceback.format_exc()[-400:])
         if hi == 7:
             acc.sample({"arm": an, "history": list(H[hi]), "thetas": list(pts)})
     return acc.result()
@@ -319,6 +410,11 @@ def replay(rec):
     try:
         arm, ref = apply_hist(arm, ref, tuple(c["history"]), TH)
         pts = theta_points(ref, rec.get("seed", 0))
+        if str(c.get("theta", "")).startswith("near_singular"):
+            for tn, th, ratio in near_singular_points(ref):
+                if tn == c["theta"]:
+                    eval_near_singular(acc, arm, ref, {k: v for k, v in c.items() if k != "call"}, th, ratio)
+            return [v for v in acc.viols if v["clause"] == rec["clause"] and v["case"].get("call") == c.get("call")]
         if c.get("theta"):
             thc = np.minimum(np.maximum(ref.clamp(pts[c["theta"]]), ref.lo + 1e-3), ref.hi - 1e-3)
             eval_point(acc, arm, ref, c, thc)
